@@ -103,7 +103,32 @@ def run(prog, rep, tier, repo):
                 recognised = True       # push of a power inside a two-level counting nest: base / exponent / range are decided
                 outer, inner = loops
                 ok = v[2][0] == outer['item'] and strip_casts(v[2][1]) == inner['item'] and inner['iter'] == ('range', ('const', 'usize', 0), n)
-        if ok:
+        # shortcut return sites: a value that does not depend on n cannot be the len(x) x n matrix for two different n
+        extra_bad = None
+        extra_unread = None
+        sites = [(f.rvalue_term(d[3], d[1]) if d[0] == 'assign' else f.call_term(d[2], d[1]), d[1]) for d in f._defs.get(0, [])]
+        built = pushes[0].args[0] if len(pushes) == 1 else None
+        for val, bb in sites:
+            if val == built or tag(val) == 'local':
+                continue
+            if n in list(subterms(val)):
+                extra_unread = 'shortcut %s' % show(val)[:50]
+                continue
+            single = False
+            for cn, vv in f.guards().get(bb, []):
+                if tag(cn) == 'bin' and cn[1] == 'Eq' and n in (cn[2], cn[3]) and vv is True:
+                    single = True
+            if single:
+                extra_unread = 'shortcut %s for one value of n' % show(val)[:50]
+            else:
+                gs = [show(cn) + (' is %s' % vv) for cn, vv in f.guards().get(bb, []) if n in list(subterms(cn))]
+                extra_bad = (show(val)[:50], '; '.join(gs) or 'no test of n')
+        if extra_bad:
+            rep.viol('vandermonde-order', key, 'vandermonde returns %s under {%s}: a value that does not depend on n cannot be the len(x) x n matrix for every n that '
+                     'reaches this return (n = 1 needs one column, n = 2 two)' % extra_bad, site_of(f.body))
+        elif extra_unread and ok:
+            rep.undecided('vandermonde-order', key, 'main construction read, %s not decided' % extra_unread, site_of(f.body), proof=False)
+        elif ok:
             rep.ok('vandermonde-order', key, 'row per abscissa, column c = x^c for c in 0..n (ascending powers)')
         elif recognised:
             rep.viol('vandermonde-order', key, 'vandermonde is not x[r]^c with c ascending from 0', site_of(f.body))
